@@ -315,6 +315,22 @@ def run(ctx, R, tier):
         R.check(not badx, "C04-R6", "ctor-inert|%s" % q.split(".", 1)[1], "a constructor/state setter reachable from the decoder only stores or converts its argument", g.loc(),
                 "`%s` looks attributes up on a decoded value: if that value is a Proxy the lookup fetches metadata, i.e. decoding opens a connection to a peer-chosen address" % (unparse(badx[0]) if badx else ""))
 
+    # the converter registries are ONE table each, created in the class body of SerializerBase and edited in place: a classmethod that assigns `cls.<registry> = <copy>`
+    # creates a private table on whatever subclass it was called through - that table shadows the shared one from then on, and a later unregister through the api
+    # (which edits the base table) no longer reaches the serializer that keeps building the application's class for the tag
+    sb = p.cls("Pyro5.serializers.SerializerBase")
+    regs = [k for k in sb.class_attrs if k.endswith("_registry")]
+    if len(regs) < 2:
+        raise AnalysisError("SerializerBase: the converter registries vanished from the class body")
+    rebinds = []
+    for g in [x for x in p.functions.values() if x.module.name == "Pyro5.serializers" and not isinstance(x.node, ast.Lambda)]:
+        for st, t, k in stores_in(g.node):
+            if isinstance(t, ast.Attribute) and t.attr.endswith("_registry") and k in ("assign", "aug"):
+                rebinds.append((g, st))
+    R.check(not rebinds, "C04-R5", "converter-registries|one-shared-table-edited-in-place", "the class-to-dict / dict-to-class registries are never re-bound (only their entries change)",
+            rebinds[0][0].loc(rebinds[0][1]) if rebinds else sb.module.relpath,
+            ("`%s` in %s replaces the registry object: called through a serializer subclass it leaves that subclass with its own copy, and an unregister through the base class / "
+             "Pyro5.api no longer removes the converter the default serializer uses" % (unparse(rebinds[0][1], 70), rebinds[0][0].name)) if rebinds else "")
     # Proxy.__setattr__ sends every name that is not in Proxy.__pyroAttributes to the REMOTE object (metadata fetch = connect): an attribute that a Proxy method
     # assigns on self must be declared there, or restoring / copying a proxy opens a connection - for __setstate__, while a message is being decoded
     px = p.cls("Pyro5.client.Proxy")
